@@ -633,7 +633,7 @@ def to_field(sch):
             raise Unmodelled("$ref with siblings")
         return ("ref", sch["$ref"][len("#/definitions/"):])
     known = {"type", "minLength", "maxLength", "pattern", "default", "minimum", "maximum", "exclusiveMaximum", "enum", "items",
-             "uniqueItems", "additionalItems", "allOf", "anyOf", "oneOf", "not", "properties", "required",
+             "uniqueItems", "additionalItems", "minItems", "maxItems", "allOf", "anyOf", "oneOf", "not", "properties", "required",
              "additionalProperties"}
     if set(sch) - known:
         raise Unmodelled("keyword %s" % sorted(set(sch) - known))
@@ -665,10 +665,10 @@ def to_field(sch):
             raise Unmodelled("boolean keywords")
         return ("boolean", to_default(sch))
     if t == "array":
-        if set(sch) - {"type", "items", "uniqueItems", "additionalItems", "default"}:
+        if set(sch) - {"type", "items", "uniqueItems", "additionalItems", "minItems", "maxItems", "default"}:
             raise Unmodelled("array keywords")
         items = sch.get("items")
-        flags = nums(sch, ["uniqueItems", "additionalItems"])
+        flags = nums(sch, ["uniqueItems", "additionalItems", "minItems", "maxItems"])
         if isinstance(sch.get("additionalItems"), dict):
             raise Unmodelled("additionalItems schema")
         if items is None:
@@ -905,7 +905,7 @@ def class_spec(name, sch, defs, probe_disc):
             fails.append(("C09/compile/unexplained", "generated source does not compile: " + x[1]))
         return fails, "no-compile", code
     if x[0] == "exec":
-        if has_not_schema(inp) or any(has_not_schema(d) for d in inp_defs.values()):
+        if not_schema_symptom(x) and (has_not_schema(inp) or any(has_not_schema(d) for d in inp_defs.values())):
             fails.append(("C09/exec/not-schema", "a draft-4 'not' (schema valued) is generated as NotField(fields=<field>): "
                                                  "%s at exec: %s" % (x[1], x[2])))
         elif not explained:
@@ -989,6 +989,13 @@ def top_diff(want, got, out):
         diff_field(props[n], gp[n], "property", out)
 
 
+def not_schema_symptom(x):
+    """The exec failure of NotField(fields=<a field, not a list>) (the generator wraps the schema of a draft-4
+    'not' in a list since the repair: another exec failure of a schema that happens to hold a 'not' is judged
+    by the other clauses)."""
+    return x[1] == "TypeError" and "Expected a Field class or instance" in x[2]
+
+
 def has_not_schema(s):
     if isinstance(s, list):
         return any(has_not_schema(x) for x in s)
@@ -1055,6 +1062,10 @@ def exact_field(rnd, depth):
         s = {"type": "array", "items": exact_field(rnd, depth + 1)}
         if rnd.random() < 0.4:
             s["uniqueItems"] = True
+        if rnd.random() < 0.3:
+            s["minItems"] = rnd.randint(1, 2)
+        if rnd.random() < 0.3:
+            s["maxItems"] = rnd.randint(2, 3)
         return s
     if r < 0.80:
         return {"type": "array", "items": [exact_field(rnd, depth + 1) for _ in range(rnd.randint(1, 2))],
@@ -1405,8 +1416,7 @@ def run(rep, tier):
             obs = observe_site(site, r[1])
             probes.append((site, s, lit if lit is not None else r[1], obs))
             rep.count("probe", 1, (site, trigger_of(s, site), obs[0]))
-            rep.stat("probe", "%s:%s" % (site, obs[0] if obs[0] != "val" else ("reads-back" if obs[1] == (
-                "\n    " + s + "\n    " if site == "description" else s) else "reads-other")))
+            rep.stat("probe", "%s:%s" % (site, obs[0] if obs[0] != "val" else ("reads-back" if obs[1] == s else "reads-other")))
             # exec-level clause
             in_dom = probe_in_domain(site, s) or (site in IDENT_SITES and s in KW_SET)
             if in_dom:
